@@ -164,7 +164,8 @@ def check_log_level_roundtrip(chk, ix):
             st = State()
             st.frames = []
             h1 = st.alloc(HObj("HandlerTok", {}, label="user handler"))
-            handlers = st.alloc(HObj("list", kind="list", items=[h1], label="root handlers"))
+            h2 = st.alloc(HObj("HandlerTok", {}, label="second user handler"))
+            handlers = st.alloc(HObj("list", kind="list", items=[h1, h2], label="root handlers"))
             root = st.alloc(HObj("LoggerTok", {"level": level0, "handlers": handlers}, label="root logger"))
 
             def add_handler(i, s_, a, k, n):
@@ -184,13 +185,19 @@ def check_log_level_roundtrip(chk, ix):
             stubs = {"logging.getLogger": lambda i, s_, a, k, n: [(s_, "val", root)], "LoggerTok.addHandler": add_handler,
                      "LoggerTok.removeHandler": remove_handler, "LoggerTok.setLevel": set_level}
             it = Interp(ix, stubs=stubs, name="LoggingCapture inveigle/abandon")
+            it.live_list_iteration = True
             it.int_sat = 1000
             it.list_cap = 100
-            it.stubs["logging.Logger.manager.loggerDict.values"] = lambda i, s_, a, k, n: [(s_, "val", ())]
+            # one other logger with three handlers of its own (hasattr(logger, "handlers") is true for it)
+            app_h = [st.alloc(HObj("HandlerTok", {}, label="app handler %d" % i)) for i in (1, 2, 3)]
+            app_handlers = st.alloc(HObj("list", kind="list", items=list(app_h), label="app logger handlers"))
+            app = st.alloc(HObj("LoggerTok", {"level": 0, "handlers": app_handlers}, label="app logger"))
+            it.stubs["logging.Logger.manager.loggerDict.values"] = lambda i, s_, a, k, n, _app=app: [(s_, "val", (_app,))]
             cfg = st.alloc(HObj("ConfigStub", {"logging_clear_handlers": clear}, label="config"))
             me = st.alloc(HObj(lc, {"config": cfg, "old_handlers": st.alloc(HObj("list", kind="list", items=[])), "old_level": None,
                                     "level": 20, "buffer": st.alloc(HObj("list", kind="list", items=[]))}, label="log capture"))
             cur = [st]
+            during = []
             for fn in (inv, ab):
                 nxt = []
                 for s_ in cur:
@@ -199,19 +206,34 @@ def check_log_level_roundtrip(chk, ix):
                             raise AnalysisError("LoggingCapture.%s not evaluable: %r" % (fn.name, v))
                         nxt.append(s2)
                 cur = nxt
+                if fn is inv:
+                    during = [list(s_.obj(s_.obj(root).fields["handlers"]).items) for s_ in cur]
+                    during_app = [list(s_.obj(s_.obj(app).fields["handlers"]).items) for s_ in cur]
             chk.absorb(it)
-            for s_ in cur:
+
+            def labels(s_, hs):
+                return [s_.obj(h).label for h in hs if isinstance(h, Ref)]
+            for s_, dur in zip(cur, during if len(during) == len(cur) else [None] * len(cur)):
                 chk.instance("K4")
                 lvl = s_.obj(root).fields["level"]
                 hs = list(s_.obj(s_.obj(root).fields["handlers"]).items)
-                if lvl == level0 and hs == [h1]:
-                    chk.ok("K4", {"root_level_before": level0, "logging_clear_handlers": clear, "after inveigle+abandon": "level and handlers as before"},
-                           nontrivial_key=(level0, clear))
+                want_during = [me] if clear else [h1, h2, me]
+                app_now = during_app[cur.index(s_)] if len(during_app) == len(cur) else None
+                app_after = list(s_.obj(s_.obj(app).fields["handlers"]).items)
+                ok_app = (app_now is None or app_now == ([] if clear else app_h)) and sorted(x.oid for x in app_after) == sorted(x.oid for x in app_h)
+                ok_during = (dur is None or dur == want_during) and ok_app
+                if not ok_app:
+                    dur = (dur or []) + (app_now or [])
+                if lvl == level0 and sorted(x.oid for x in hs) == sorted((h1.oid, h2.oid)) and len(hs) == 2 and ok_during:
+                    chk.ok("K4", {"root_level_before": level0, "logging_clear_handlers": clear, "handlers while capturing": labels(s_, dur or []),
+                                  "after inveigle+abandon": "level and handlers as before"}, nontrivial_key=(level0, clear))
                 else:
-                    chk.fail(Finding("K4", ab.fullname, "level %r -> %r, handlers %s" % (level0, lvl, [s_.obj(h).label for h in hs if isinstance(h, Ref)]),
-                                     "after inveigle() and abandon() with the root logger at level %r and logging_clear_handlers=%s the root level is "
-                                     "%r and its handlers are %s; expected level %r and the user's handler only (the capture level leaks into "
-                                     "the rest of the run)" % (level0, clear, lvl, [s_.obj(h).label for h in hs if isinstance(h, Ref)], level0),
+                    chk.fail(Finding("K4", (ab if ok_during else inv).fullname,
+                                     "level %r -> %r, handlers while capturing %s, afterwards %s" % (level0, lvl, labels(s_, dur or []), labels(s_, hs)),
+                                     "with the root logger at level %r, two user handlers and logging_clear_handlers=%s: while capturing the root "
+                                     "handlers are %s (expected %s), after abandon() the level is %r and the handlers are %s; expected level %r "
+                                     "and exactly the two user handlers" % (level0, clear, labels(s_, dur or []), labels(s_, want_during), lvl,
+                                                                             labels(s_, hs), level0),
                                      file=ab.file, line=ab.lineno, path=list(s_.path)))
 
 
